@@ -72,18 +72,36 @@ package tree
 // Cparse (assumed; bounded stand-in B-parse / B-load): FromReader is the ANTLR lexer and parser plus
 // the closure-stack listener, outside the verifier's subset. What the runner relies on:
 //
+// loads(r) / nodesOf(r): whether the content of reader r is a valid script, and the nodes it describes
+// (uninterpreted: decided by the grammar).
+//@ extern func loads(r io.Reader) bool
+//@ extern func nodesOf(r io.Reader) seq[Node]
+//
 //@ func FromReader(reader io.Reader) (dialogue *Dialogue, err error)
 //@   trusted
 //@   ensures err == nil ==> dialogue != nil && fresh(dialogue) && len(dialogue.Nodes) >= 1 && fresh(dialogue.Nodes) && wfDialogue(dialogue)
 //@   ensures err != nil ==> dialogue == nil
+//@   ensures (err == nil) == loads(reader)
+//@   ensures err == nil ==> seq(dialogue.Nodes) == nodesOf(reader)
+//
+// Several readers behave as one script: the nodes of the readers, in reader order (C01, C08).
+//@ opaque pure func NodesFrom(rs seq[io.Reader], i int, acc seq[Node]) seq[Node] {
+//@     return (i < 0 || i >= len(rs)) ? acc : NodesFrom(rs, i + 1, acc ++ nodesOf(rs[i])) }
 //
 //@ func FromReaders(readers []io.Reader) (dialogue *Dialogue, err error)
 //@   ensures "nonempty-or-error": (err == nil ==> dialogue != nil && fresh(dialogue) && len(dialogue.Nodes) >= 1 && wfDialogue(dialogue)) &&
 //@                                (err != nil ==> dialogue == nil)
 //@   ensures "no-reader-is-error": len(readers) == 0 ==> err != nil
+//@   ensures "readers-in-order": err == nil ==> seq(dialogue.Nodes) == NodesFrom(seq(readers), 0, seq[Node]{})
+//@   ensures "error-iff-a-reader-fails": (err == nil) == (len(readers) > 0 && (forall i int :: {readers[i]} 0 <= i && i < len(readers) ==> loads(readers[i])))
 //@   ghost after call append#0 {
 //@       assert "kept": forall i int :: {callres[i]} 0 <= i && i < len(dialogue.Nodes) ==> callres[i] == dialogue.Nodes[i]
 //@       assert "appended": forall i int :: {callres[i]} len(dialogue.Nodes) <= i && i < len(callres) ==> callres[i] == d.Nodes[i - len(dialogue.Nodes)]
+//@       assert "concat": len(callres) == len(dialogue.Nodes) + len(d.Nodes) && seq(callres) == before(seq(dialogue.Nodes)) ++ before(seq(d.Nodes))
+//@       assert "unfold": NodesFrom(seq(readers), rangeindex, before(seq(dialogue.Nodes))) ==
+//@                        NodesFrom(seq(readers), rangeindex + 1, before(seq(dialogue.Nodes)) ++ nodesOf(readers[rangeindex]))
 //@   }
+//@   loop 0: invariant "in-order-so-far": NodesFrom(seq(readers), rangeindex + 1, seq(dialogue.Nodes)) == NodesFrom(seq(readers), 0, seq[Node]{}) &&
+//@                     (forall i int :: {readers[i]} 0 <= i && i <= rangeindex ==> loads(readers[i]))
 //@   loop 0: invariant dialogue != nil && fresh(dialogue) && wfDialogue(dialogue) && 0 <= rangeindex + 1 &&
 //@                     (rangeindex + 1 > 0 ==> len(dialogue.Nodes) >= 1) && (arrayOf(dialogue.Nodes) == 0 || fresh(dialogue.Nodes))
